@@ -2,11 +2,15 @@ import KVerif.Drv.C14
 namespace KVerif.Drv.C01o
 open KVerif.L KVerif.K KVerif.Drv KVerif.Drv.Kan KVerif.Drv.C14
 
+/-- the OS key / button state is a set: a second press of something already down changes nothing
+and one release lets it go -/
 def applyAll (down : List String) (e : String) : List String :=
-  if e.startsWith "d" then (e.drop 1).toString :: down
-  else if e.startsWith "u" then down.erase (e.drop 1).toString
-  else if e.startsWith "bd" then s!"btn{(e.drop 2).toString}" :: down
-  else if e.startsWith "bu" then down.erase s!"btn{(e.drop 2).toString}"
+  let add (x : String) := if down.contains x then down else x :: down
+  let del (x : String) := down.filter (· != x)
+  if e.startsWith "d" then add (e.drop 1).toString
+  else if e.startsWith "u" then del (e.drop 1).toString
+  else if e.startsWith "bd" then add s!"btn{(e.drop 2).toString}"
+  else if e.startsWith "bu" then del s!"btn{(e.drop 2).toString}"
   else down
 
 def latching (k : KState) : Bool :=
@@ -34,8 +38,11 @@ def diagnose (c : Kan.Case) (k : KState) (down : List String) : String :=
     let k := r.k
     let hasCustom := k.layout.states.any fun s => match s with | .custom .. => true | _ => false
     let stale := (k.unmoddedKeys ++ k.unshiftedKeys).map toString
-    if !stale.isEmpty && !hasCustom && down.all stale.contains then
-      "model: lost-custom-release (unmod/unshift key list non-empty with no custom state left)"
+    let mouseBusy := k.scroll.isSome || k.hscroll.isSome || k.moveV.isSome || k.moveH.isSome
+    if !hasCustom && ((!stale.isEmpty && down.all fun d => stale.contains d || d.startsWith "btn") ||
+        (stale.isEmpty && !down.isEmpty && down.all (·.startsWith "btn")) ||
+        (down.isEmpty && mouseBusy)) then
+      "model: lost-custom-release (an effect of a custom action - unmod/unshift key, mouse button, wheel or pointer movement - is still active with no custom state left to release it)"
     else if k.layout.activeSequences.isEmpty && k.layout.states.any (fun s => match s with | .fakeKey _ => true | _ => false) then
       "model: orphaned-macro-key (FakeKey state left with no active sequence)"
     else if !isIdle k then
